@@ -1,1 +1,292 @@
-(* Props/C11.v -- stub, to be filled in *)
+(* Props/C11.v -- polynomial arithmetic, evaluation and differentiation obey the ring and calculus laws.
+   Property theorems only: Theorem / exact lemma / Check (pins the statement) / Print Assumptions.
+   All theorems quantify over every coefficient list (every length, the empty polynomial included) and
+   every value; "RingLaws A" = the operations of A form a commutative ring (a hypothesis, discharged at Qc
+   by AQ_RingLaws below; never an axiom).  nth k p zero is coefficient k (zero beyond the length).
+
+   Reading of "the empty polynomial acts as zero" (DESIGN 7, C11): it is neutral for + and -, absorbing
+   for * (pempty_laws); eval / derivative of the empty polynomial PANIC in the code and in the model
+   (empty_eval_panics) -- that is why the evaluation theorems carry p <> [] hypotheses. *)
+From Coq Require Import List Arith ZArith.
+From OV Require Import Base.Panic Base.Arith Inst.QcInst Model.Poly Proofs.Poly Proofs.PolyExtra Proofs.PolyRing.
+Import ListNotations.
+
+(* the commutative-ring hypothesis is satisfiable: Qc *)
+Definition AQ_RingLaws : RingLaws AQ := {| rl_ring := Field_theory.F_R AQ_field |}.
+
+(* ---------------------------------------------------------------- coefficient formulae *)
+Theorem nth_padd : forall (A : Arith), RingLaws A -> forall (p q : list A) k,
+  nth k (padd p q) zero = add (nth k p zero) (nth k q zero).
+Proof. intros A RL p q k. exact (Proofs.Poly.nth_padd RL p q k). Qed.
+Check nth_padd : forall (A : Arith), RingLaws A -> forall (p q : list A) k,
+  nth k (padd p q) zero = add (nth k p zero) (nth k q zero).
+Print Assumptions nth_padd.
+Example nth_padd_nonvacuous : RingLaws AQ. Proof. exact AQ_RingLaws. Qed.
+
+Theorem nth_psub : forall (A : Arith), RingLaws A -> forall (p q : list A) k,
+  nth k (psub p q) zero = sub (nth k p zero) (nth k q zero).
+Proof. intros A RL p q k. exact (Proofs.Poly.nth_psub RL p q k). Qed.
+Check nth_psub : forall (A : Arith), RingLaws A -> forall (p q : list A) k,
+  nth k (psub p q) zero = sub (nth k p zero) (nth k q zero).
+Print Assumptions nth_psub.
+
+Theorem nth_pneg : forall (A : Arith), RingLaws A -> forall (p : list A) k,
+  nth k (pneg p) zero = neg (nth k p zero).
+Proof. intros A RL p k. exact (Proofs.Poly.nth_pneg RL p k). Qed.
+Check nth_pneg : forall (A : Arith), RingLaws A -> forall (p : list A) k,
+  nth k (pneg p) zero = neg (nth k p zero).
+Print Assumptions nth_pneg.
+
+Theorem nth_pscale : forall (A : Arith), RingLaws A -> forall (p : list A) (s : A) k,
+  nth k (pscale p s) zero = mul (nth k p zero) s.
+Proof. intros A RL p s k. exact (Proofs.Poly.nth_pscale RL p s k). Qed.
+Check nth_pscale : forall (A : Arith), RingLaws A -> forall (p : list A) (s : A) k,
+  nth k (pscale p s) zero = mul (nth k p zero) s.
+Print Assumptions nth_pscale.
+
+(* the product is the convolution  c_k = Σ_{i<=k} p_i q_{k-i}  (sum_n (S k) f = f 0 + ... + f k) *)
+Theorem nth_pmul : forall (A : Arith), RingLaws A -> forall (p q : list A) k,
+  nth k (pmul p q) zero = sum_n (S k) (fun i => mul (nth i p zero) (nth (k - i) q zero)).
+Proof. intros A RL p q k. exact (Proofs.Poly.nth_pmul RL p q k). Qed.
+Check nth_pmul : forall (A : Arith), RingLaws A -> forall (p q : list A) k,
+  nth k (pmul p q) zero = sum_n (S k) (fun i => mul (nth i p zero) (nth (k - i) q zero)).
+Print Assumptions nth_pmul.
+
+(* derivative: coefficient k is a_{k+1} added up k+1 times, i.e. (k+1) * a_{k+1} with (k+1) = 1+...+1 *)
+Theorem nth_pderiv : forall (A : Arith), RingLaws A -> forall (p d : list A) k, pderiv p = Ok d ->
+  nth k d zero = add_times (S k) (nth (S k) p zero) zero /\
+  nth k d zero = mul (add_times (S k) one zero) (nth (S k) p zero).
+Proof.
+  intros A RL p d k E. split.
+  - exact (Proofs.Poly.nth_pderiv RL p d k E).
+  - exact (eq_trans (Proofs.Poly.nth_pderiv RL p d k E) (nmul_of_nat RL (S k) (nth (S k) p zero))).
+Qed.
+Check nth_pderiv : forall (A : Arith), RingLaws A -> forall (p d : list A) k, pderiv p = Ok d ->
+  nth k d zero = add_times (S k) (nth (S k) p zero) zero /\
+  nth k d zero = mul (add_times (S k) one zero) (nth (S k) p zero).
+Print Assumptions nth_pderiv.
+Example nth_pderiv_nonvacuous : exists d, pderiv ([q 5 1; q 1 2; q 3 1] : list AQ) = Ok d /\ length d = 2.
+Proof. eexists; split; reflexivity. Qed.
+
+(* ---------------------------------------------------------------- lengths (every arithmetic, no laws) *)
+Theorem poly_lengths : forall (A : Arith) (p q : list A) (s : A),
+  length (padd p q) = Nat.max (length p) (length q) /\
+  length (psub p q) = Nat.max (length p) (length q) /\
+  (p <> [] -> q <> [] -> length (pmul p q) = length p + length q - 1) /\
+  length (pneg p) = length p /\ length (pscale p s) = length p /\
+  (forall d, pderiv p = Ok d -> length d = length p - 1).
+Proof.
+  intros A p q s.
+  exact (conj (length_padd p q) (conj (length_psub p q) (conj (length_pmul p q)
+        (conj (length_pneg p) (conj (length_pscale p s) (pderiv_length p)))))).
+Qed.
+Check poly_lengths : forall (A : Arith) (p q : list A) (s : A),
+  length (padd p q) = Nat.max (length p) (length q) /\
+  length (psub p q) = Nat.max (length p) (length q) /\
+  (p <> [] -> q <> [] -> length (pmul p q) = length p + length q - 1) /\
+  length (pneg p) = length p /\ length (pscale p s) = length p /\
+  (forall d, pderiv p = Ok d -> length d = length p - 1).
+Print Assumptions poly_lengths.
+
+(* ---------------------------------------------------------------- the empty polynomial (every arithmetic) *)
+Theorem pempty_laws : forall (A : Arith) (p : list A),
+  padd [] p = p /\ padd p [] = p /\ psub p [] = p /\ psub [] p = pneg p /\ pmul [] p = [] /\ pmul p [] = [].
+Proof.
+  intros A p.
+  exact (conj (padd_nil_l p) (conj (padd_nil_r p) (conj (psub_nil_r p) (conj (psub_nil_l p)
+        (conj (pmul_nil_l p) (pmul_nil_r p)))))).
+Qed.
+Check pempty_laws : forall (A : Arith) (p : list A),
+  padd [] p = p /\ padd p [] = p /\ psub p [] = p /\ psub [] p = pneg p /\ pmul [] p = [] /\ pmul p [] = [].
+Print Assumptions pempty_laws.
+
+Theorem empty_eval_panics : forall (A : Arith) (p : list A) (x : A),
+  peval [] x = Panic Unwrap /\ pderiv (@nil A) = Panic Unwrap /\
+  (p <> [] -> pderiv_at p x (length p) = Panic Unwrap).
+Proof. intros A p x. exact (conj (peval_nil x) (conj pderiv_nil (pderiv_at_exhausted p x))). Qed.
+Check empty_eval_panics : forall (A : Arith) (p : list A) (x : A),
+  peval [] x = Panic Unwrap /\ pderiv (@nil A) = Panic Unwrap /\
+  (p <> [] -> pderiv_at p x (length p) = Panic Unwrap).
+Print Assumptions empty_eval_panics.
+
+(* eval / derivative / trim panic exactly on the empty polynomial (every arithmetic; + - * neg scale are total by type) *)
+Theorem poly_panics_exactly : forall (A : Arith) (p : list A) (x : A),
+  (p = [] -> peval p x = Panic Unwrap /\ pderiv p = Panic Unwrap /\ ptrim p = Panic Underflow) /\
+  (p <> [] -> (exists a, peval p x = Ok a) /\ (exists d, pderiv p = Ok d) /\ (exists t, ptrim p = Ok t)).
+Proof. intros A p x. exact (poly_panics_exactly_lemma p x). Qed.
+Check poly_panics_exactly : forall (A : Arith) (p : list A) (x : A),
+  (p = [] -> peval p x = Panic Unwrap /\ pderiv p = Panic Unwrap /\ ptrim p = Panic Underflow) /\
+  (p <> [] -> (exists a, peval p x = Ok a) /\ (exists d, pderiv p = Ok d) /\ (exists t, ptrim p = Ok t)).
+Print Assumptions poly_panics_exactly.
+
+(* ---------------------------------------------------------------- evaluation is a ring homomorphism *)
+Theorem peval_is_sum : forall (A : Arith), RingLaws A -> forall (p : list A) (x : A), p <> [] ->
+  peval p x = Ok (sum_n (length p) (fun i => mul (nth i p zero) (rpow x i))).
+Proof.
+  intros A RL p x H.
+  exact (eq_trans (peval_horner RL p x H) (f_equal Ok (horner_sum RL p x))).
+Qed.
+Check peval_is_sum : forall (A : Arith), RingLaws A -> forall (p : list A) (x : A), p <> [] ->
+  peval p x = Ok (sum_n (length p) (fun i => mul (nth i p zero) (rpow x i))).
+Print Assumptions peval_is_sum.
+Example peval_is_sum_nonvacuous : RingLaws AQ /\ [q 1 1; q (-2) 3; q 0 1; q 7 1] <> ([] : list AQ).
+Proof. split; [exact AQ_RingLaws | discriminate]. Qed.
+
+Theorem peval_padd : forall (A : Arith), RingLaws A -> forall (p q : list A) (x : A), p <> [] -> q <> [] ->
+  exists a b, peval p x = Ok a /\ peval q x = Ok b /\ peval (padd p q) x = Ok (add a b).
+Proof. intros A RL p q x Hp Hq. exact (peval_padd_lemma RL p q x Hp Hq). Qed.
+Check peval_padd : forall (A : Arith), RingLaws A -> forall (p q : list A) (x : A), p <> [] -> q <> [] ->
+  exists a b, peval p x = Ok a /\ peval q x = Ok b /\ peval (padd p q) x = Ok (add a b).
+Print Assumptions peval_padd.
+Example peval_padd_nonvacuous : RingLaws AQ /\ [q 1 1; q 2 1] <> ([] : list AQ) /\ [q 0 1; q 0 1; q 5 3] <> ([] : list AQ).
+Proof. split; [exact AQ_RingLaws|split; discriminate]. Qed.
+
+Theorem peval_psub : forall (A : Arith), RingLaws A -> forall (p q : list A) (x : A), p <> [] -> q <> [] ->
+  exists a b, peval p x = Ok a /\ peval q x = Ok b /\ peval (psub p q) x = Ok (sub a b).
+Proof. intros A RL p q x Hp Hq. exact (peval_psub_lemma RL p q x Hp Hq). Qed.
+Check peval_psub : forall (A : Arith), RingLaws A -> forall (p q : list A) (x : A), p <> [] -> q <> [] ->
+  exists a b, peval p x = Ok a /\ peval q x = Ok b /\ peval (psub p q) x = Ok (sub a b).
+Print Assumptions peval_psub.
+
+Theorem peval_pmul : forall (A : Arith), RingLaws A -> forall (p q : list A) (x : A), p <> [] -> q <> [] ->
+  exists a b, peval p x = Ok a /\ peval q x = Ok b /\ peval (pmul p q) x = Ok (mul a b).
+Proof. intros A RL p q x Hp Hq. exact (peval_pmul_lemma RL p q x Hp Hq). Qed.
+Check peval_pmul : forall (A : Arith), RingLaws A -> forall (p q : list A) (x : A), p <> [] -> q <> [] ->
+  exists a b, peval p x = Ok a /\ peval q x = Ok b /\ peval (pmul p q) x = Ok (mul a b).
+Print Assumptions peval_pmul.
+
+Theorem peval_pneg_pscale : forall (A : Arith), RingLaws A -> forall (p : list A) (x s : A), p <> [] ->
+  exists a, peval p x = Ok a /\ peval (pneg p) x = Ok (neg a) /\ peval (pscale p s) x = Ok (mul a s).
+Proof. intros A RL p x s Hp. exact (peval_pneg_pscale_lemma RL p x s Hp). Qed.
+Check peval_pneg_pscale : forall (A : Arith), RingLaws A -> forall (p : list A) (x s : A), p <> [] ->
+  exists a, peval p x = Ok a /\ peval (pneg p) x = Ok (neg a) /\ peval (pscale p s) x = Ok (mul a s).
+Print Assumptions peval_pneg_pscale.
+
+(* ---------------------------------------------------------------- calculus *)
+Theorem pderiv_linear : forall (A : Arith), RingLaws A -> forall (p q dp dq : list A) (s : A),
+  pderiv p = Ok dp -> pderiv q = Ok dq ->
+  pderiv (padd p q) = Ok (padd dp dq) /\ pderiv (pscale p s) = Ok (pscale dp s) /\
+  (forall d, pderiv (psub p q) = Ok d -> forall k, nth k d zero = nth k (psub dp dq) zero).
+Proof.
+  intros A RL p q dp dq s Ep Eq.
+  exact (conj (pderiv_padd RL p q dp dq Ep Eq) (conj (pderiv_pscale RL p dp s Ep) (pderiv_psub RL p q dp dq Ep Eq))).
+Qed.
+Check pderiv_linear : forall (A : Arith), RingLaws A -> forall (p q dp dq : list A) (s : A),
+  pderiv p = Ok dp -> pderiv q = Ok dq ->
+  pderiv (padd p q) = Ok (padd dp dq) /\ pderiv (pscale p s) = Ok (pscale dp s) /\
+  (forall d, pderiv (psub p q) = Ok d -> forall k, nth k d zero = nth k (psub dp dq) zero).
+Print Assumptions pderiv_linear.
+Example pderiv_linear_nonvacuous : RingLaws AQ /\
+  exists dp dq, pderiv ([q 1 1; q 2 1; q 3 1] : list AQ) = Ok dp /\ pderiv ([q 4 1; q (-1) 2] : list AQ) = Ok dq.
+Proof. split; [exact AQ_RingLaws|]. eexists; eexists; split; reflexivity. Qed.
+
+(* product rule: (p*q)' = p'*q + p*q' as coefficient lists (hence coefficient by coefficient) *)
+Theorem pderiv_product : forall (A : Arith), RingLaws A -> forall (p q dp dq : list A),
+  pderiv p = Ok dp -> pderiv q = Ok dq ->
+  pderiv (pmul p q) = Ok (padd (pmul dp q) (pmul p dq)).
+Proof. intros A RL p q dp dq Ep Eq. exact (pderiv_pmul RL p q dp dq Ep Eq). Qed.
+Check pderiv_product : forall (A : Arith), RingLaws A -> forall (p q dp dq : list A),
+  pderiv p = Ok dp -> pderiv q = Ok dq ->
+  pderiv (pmul p q) = Ok (padd (pmul dp q) (pmul p dq)).
+Print Assumptions pderiv_product.
+Example pderiv_product_nonvacuous : RingLaws AQ /\
+  exists dp dq, pderiv ([q 1 1; q 2 1; q 3 1] : list AQ) = Ok dp /\ pderiv ([q 4 1; q (-1) 2] : list AQ) = Ok dq.
+Proof. split; [exact AQ_RingLaws|]. eexists; eexists; split; reflexivity. Qed.
+
+(* repeated differentiation (every arithmetic): order k <= len leaves len-k coefficients, order len = degree+1
+   leaves the empty polynomial, every higher order panics *)
+Theorem pderiv_n_orders : forall (A : Arith) (p : list A), p <> [] ->
+  pderiv_n p (length p) = Ok [] /\
+  (forall k, k <= length p -> exists d, pderiv_n p k = Ok d /\ length d = length p - k) /\
+  (forall k, length p < k -> pderiv_n p k = Panic Unwrap).
+Proof.
+  intros A p Hp.
+  exact (conj (pderiv_n_exhausts p Hp) (conj (fun k => pderiv_n_length k p) (fun k => pderiv_n_beyond k p))).
+Qed.
+Check pderiv_n_orders : forall (A : Arith) (p : list A), p <> [] ->
+  pderiv_n p (length p) = Ok [] /\
+  (forall k, k <= length p -> exists d, pderiv_n p k = Ok d /\ length d = length p - k) /\
+  (forall k, length p < k -> pderiv_n p k = Panic Unwrap).
+Print Assumptions pderiv_n_orders.
+Example pderiv_n_orders_nonvacuous : [q 1 1; q 2 1; q 3 1] <> ([] : list AQ).
+Proof. discriminate. Qed.
+
+(* ---------------------------------------------------------------- is_zero / trim / index (anchors: trim / is_zero, index operator) *)
+(* the explicit guard of Index / IndexMut fires exactly on index >= len (every arithmetic) *)
+Theorem pindex_spec : forall (A : Arith) (p : list A) i (x : A),
+  (i < length p -> pindex p i = Ok (nth i p zero) /\ pindex_set p i x = Ok (upd_list p i x)) /\
+  (length p <= i -> pindex p i = Panic Guard /\ pindex_set p i x = Panic Guard).
+Proof. intros A p i x. exact (pindex_spec_lemma p i x). Qed.
+Check pindex_spec : forall (A : Arith) (p : list A) i (x : A),
+  (i < length p -> pindex p i = Ok (nth i p zero) /\ pindex_set p i x = Ok (upd_list p i x)) /\
+  (length p <= i -> pindex p i = Panic Guard /\ pindex_set p i x = Panic Guard).
+Print Assumptions pindex_spec.
+
+(* is_zero and trim compare with ==; where == decides equality (Rat / Qc; not f64: NaN, -0.0) they mean
+   "all coefficients are zero" and "drop the zero coefficients above the true degree, keep at least one" *)
+Theorem is_zero_spec : forall (A : Arith), (forall x y : A, eqb x y = true <-> x = y) ->
+  forall p : list A, is_zero p = true <-> forall k, nth k p zero = zero.
+Proof. intros A H p. exact (is_zero_spec_lemma H p). Qed.
+Check is_zero_spec : forall (A : Arith), (forall x y : A, eqb x y = true <-> x = y) ->
+  forall p : list A, is_zero p = true <-> forall k, nth k p zero = zero.
+Print Assumptions is_zero_spec.
+Example is_zero_spec_nonvacuous : forall x y : AQ, eqb x y = true <-> x = y.
+Proof. exact Qc_eqb_spec. Qed.
+
+Theorem ptrim_spec : forall (A : Arith), (forall x y : A, eqb x y = true <-> x = y) -> forall p : list A,
+  (p = [] -> ptrim p = Panic Underflow) /\
+  (p <> [] -> exists p' n, ptrim p = Ok p' /\ p = p' ++ repeat zero n /\ p' <> [] /\
+                           (forall k, nth k p' zero = nth k p zero) /\ (length p' = 1 \/ last p' zero <> zero)).
+Proof. intros A H p. exact (ptrim_spec_lemma H p). Qed.
+Check ptrim_spec : forall (A : Arith), (forall x y : A, eqb x y = true <-> x = y) -> forall p : list A,
+  (p = [] -> ptrim p = Panic Underflow) /\
+  (p <> [] -> exists p' n, ptrim p = Ok p' /\ p = p' ++ repeat zero n /\ p' <> [] /\
+                           (forall k, nth k p' zero = nth k p zero) /\ (length p' = 1 \/ last p' zero <> zero)).
+Print Assumptions ptrim_spec.
+Example ptrim_spec_nonvacuous : (forall x y : AQ, eqb x y = true <-> x = y) /\ [q 1 1; q 0 1; q 2 1; q 0 1; q 0 1] <> ([] : list AQ).
+Proof. split; [exact Qc_eqb_spec|discriminate]. Qed.
+
+(* ---------------------------------------------------------------- the ring laws themselves, coefficient by coefficient *)
+(* (equality as polynomials: formal trailing zeros ignored; the empty polynomial is the zero of this ring, pempty_laws) *)
+Theorem poly_ring_laws : forall (A : Arith), RingLaws A -> forall (p q r : list A) (s : A),
+  (forall k, nth k (padd p q) zero = nth k (padd q p) zero) /\
+  (forall k, nth k (padd (padd p q) r) zero = nth k (padd p (padd q r)) zero) /\
+  (forall k, nth k (padd p (pneg p)) zero = nth k [] zero) /\
+  (forall k, nth k (psub p q) zero = nth k (padd p (pneg q)) zero) /\
+  (forall k, nth k (pmul p q) zero = nth k (pmul q p) zero) /\
+  (forall k, nth k (pmul (pmul p q) r) zero = nth k (pmul p (pmul q r)) zero) /\
+  (forall k, nth k (pmul [one] p) zero = nth k p zero) /\
+  (forall k, nth k (pmul (padd p q) r) zero = nth k (padd (pmul p r) (pmul q r)) zero) /\
+  (forall k, nth k (pscale p s) zero = nth k (pmul [s] p) zero).
+Proof.
+  intros A RL p q r s.
+  exact (conj (padd_comm RL p q) (conj (padd_assoc RL p q r) (conj (padd_neg RL p) (conj (psub_as_add RL p q)
+        (conj (pmul_comm RL p q) (conj (pmul_assoc RL p q r) (conj (pmul_one_l RL p)
+        (conj (pmul_padd_distr_r RL p q r) (pscale_as_pmul RL p s))))))))).
+Qed.
+Check poly_ring_laws : forall (A : Arith), RingLaws A -> forall (p q r : list A) (s : A),
+  (forall k, nth k (padd p q) zero = nth k (padd q p) zero) /\
+  (forall k, nth k (padd (padd p q) r) zero = nth k (padd p (padd q r)) zero) /\
+  (forall k, nth k (padd p (pneg p)) zero = nth k [] zero) /\
+  (forall k, nth k (psub p q) zero = nth k (padd p (pneg q)) zero) /\
+  (forall k, nth k (pmul p q) zero = nth k (pmul q p) zero) /\
+  (forall k, nth k (pmul (pmul p q) r) zero = nth k (pmul p (pmul q r)) zero) /\
+  (forall k, nth k (pmul [one] p) zero = nth k p zero) /\
+  (forall k, nth k (pmul (padd p q) r) zero = nth k (padd (pmul p r) (pmul q r)) zero) /\
+  (forall k, nth k (pscale p s) zero = nth k (pmul [s] p) zero).
+Print Assumptions poly_ring_laws.
+
+(* ---------------------------------------------------------------- the same at Qc, hypotheses discharged *)
+Theorem peval_pmul_Qc : forall (p q : list AQ) (x : AQ), p <> [] -> q <> [] ->
+  exists a b, peval p x = Ok a /\ peval q x = Ok b /\ peval (pmul p q) x = Ok (mul a b).
+Proof. exact (peval_pmul_lemma AQ_RingLaws). Qed.
+Check peval_pmul_Qc : forall (p q : list AQ) (x : AQ), p <> [] -> q <> [] ->
+  exists a b, peval p x = Ok a /\ peval q x = Ok b /\ peval (pmul p q) x = Ok (mul a b).
+Print Assumptions peval_pmul_Qc.
+
+Theorem pderiv_product_Qc : forall (p q dp dq : list AQ), pderiv p = Ok dp -> pderiv q = Ok dq ->
+  pderiv (pmul p q) = Ok (padd (pmul dp q) (pmul p dq)).
+Proof. exact (pderiv_pmul AQ_RingLaws). Qed.
+Check pderiv_product_Qc : forall (p q dp dq : list AQ), pderiv p = Ok dp -> pderiv q = Ok dq ->
+  pderiv (pmul p q) = Ok (padd (pmul dp q) (pmul p dq)).
+Print Assumptions pderiv_product_Qc.
